@@ -129,7 +129,10 @@ def run_impl(case):
     from hio.help.naming import Namer
     from hio import hioing
     try:
+        # other registries live in the same process, before and after this one: they share nothing with it
+        decoy = Namer(entries=[("zz-decoy", "/zz/decoy"), (_fresh(NAMES[1]), "/zz/other")])
         nm = _construct(case)
+        decoy2 = Namer(entries=[(_fresh(NAMES[2]), _fresh(ADDRS[1]))])
     except Exception as ex:
         return {"raised": exn_kind(ex), "results": [], "abn": [], "nba": []}
     results = []
@@ -167,6 +170,7 @@ def run_impl(case):
             results.append(["ok", bool(r)])
         except Exception as ex:
             results.append(["exc", exn_kind(ex)])
+    decoy.clearAllNameAddr(); decoy2.addNameAddr(name="yy-decoy", addr=_fresh(ADDRS[2])); Namer(); Namer(entries=[("q", "/q")])
     probe("after the last op")
     def idx(table, v):      # -1: the registry holds something that was never given to it in this form
         return next((n for n, w in enumerate(table) if type(w) is type(v) and w == v), -1)
